@@ -12,7 +12,8 @@ from ..harness import Violation
 LEVEL = "exploration"
 RULE = (
     "Label-map pairs in 1-3-D (free labelling, boxes, derived predictions: shifts, grow/shrink, splits, merges, "
-    "spurious/deleted instances, either side empty) x input type {SEMANTIC, UNMATCHED_INSTANCE, MATCHED_INSTANCE} x "
+    "spurious/deleted instances, either side empty; 5 % long 1-D maps given as runs, up to ~200k voxels, so that "
+    "coordinates pass 2^8 and 2^16) x input type {SEMANTIC, UNMATCHED_INSTANCE, MATCHED_INSTANCE} x "
     "backend {default, cc3d, scipy} x matching metric {IoU, Dice, ASSD} x threshold (grid, floats, exact candidate "
     "scores) x decision metric {none, IoU, Dice, ASSD} with threshold; instance metrics always {DSC, IOU, ASSD, RVD}. "
     "Exhaustive sub-domains: all 1-D unmatched pairs up to length 4 (quick) / 5 (thorough) over labels {0,1,2} at "
@@ -36,8 +37,41 @@ def prepare(tier):
 
 
 @st.composite
-def case_strategy(draw):
-    pred, ref = draw(gen.pair(k=4, derived_weight=3))
+def rle_pair(draw):
+    """Long 1-D maps given as runs (pred label, ref label, length): coordinates beyond 2^8 and 2^16,
+    objects far apart, large background."""
+    nruns = draw(st.integers(1, 8))
+    runs = []
+    big = 0
+    for _ in range(nruns):
+        n = draw(st.sampled_from([1, 1, 2, 3, 5, 9, 100, 255, 256, 257, 1000, 30000, 65536, 70000]))
+        a, b = draw(st.sampled_from([0, 0, 1, 2, 3])), draw(st.sampled_from([0, 0, 1, 2, 3]))
+        if n >= 30000:
+            big += 1
+            if big > 2:
+                n = 7
+            elif draw(st.integers(0, 7)) > 0:
+                a = b = 0  # mostly large background gaps (the cheap way to push coordinates past 2^16)
+            else:
+                n = min(n, 30000)
+        runs.append([a, b, n])
+    return runs
+
+
+def rle_arrays(runs):
+    pred = np.concatenate([np.full(n, a, dtype=np.int64) for a, b, n in runs])
+    ref = np.concatenate([np.full(n, b, dtype=np.int64) for a, b, n in runs])
+    return pred, ref
+
+
+@st.composite
+def case_strategy(draw, allow_rle=False):
+    rle = None
+    if allow_rle and draw(st.integers(0, 39)) == 0:
+        rle = draw(rle_pair())
+        pred, ref = np.zeros(1, dtype=np.int64), np.zeros(1, dtype=np.int64)
+    else:
+        pred, ref = draw(gen.pair(k=4, derived_weight=3))
     it = draw(st.sampled_from(["SEMANTIC", "UNMATCHED_INSTANCE", "MATCHED_INSTANCE"]))
     mmetric = draw(st.sampled_from(["IOU", "IOU", "DSC", "ASSD"]))
     dec = None
@@ -51,7 +85,7 @@ def case_strategy(draw):
         dtype = draw(st.sampled_from(["uint8", "uint16", "int16", "int64", "uint32"]))
     else:
         dtype = draw(st.sampled_from(["uint8", "uint16", "uint32"]))
-    return {
+    case = {
         "pred": pred.tolist(),
         "ref": ref.tolist(),
         "dtype": dtype,
@@ -60,10 +94,20 @@ def case_strategy(draw):
         "matcher": None if it == "MATCHED_INSTANCE" else {"kind": "naive", "metric": mmetric, "thr": draw(gen.threshold(mmetric)), "m2o": False},
         "decision": dec,
     }
+    if rle is not None:
+        case["rle"] = rle
+        del case["pred"], case["ref"]
+    return case
+
+
+def case_arrays(case):
+    if "rle" in case:
+        return rle_arrays(case["rle"])
+    return np.array(case["pred"]), np.array(case["ref"])
 
 
 def searches(tier):
-    return [("pipeline", case_strategy(), BUDGET[tier])]
+    return [("pipeline", case_strategy(allow_rle=True), BUDGET[tier])]
 
 
 def enumerations(tier):
@@ -101,8 +145,8 @@ def enumerations(tier):
 def resolve(case):
     """Concrete config: thresholds given as 'score index' are resolved against the model's
     candidate scores."""
-    pred = np.array(case["pred"]).astype(case["dtype"])
-    ref = np.array(case["ref"]).astype(case["dtype"])
+    pred, ref = case_arrays(case)
+    pred, ref = pred.astype(case["dtype"]), ref.astype(case["dtype"])
     cfg = {"input": case["input"], "backend": case.get("backend"), "imetrics": PM.METRICS, "gmetrics": []}
     pin = PM.model_instances(pred, case["input"], case.get("backend"))
     rin = PM.model_instances(ref, case["input"], case.get("backend"))
@@ -127,6 +171,8 @@ def check(case, stats):
     cands = info["cands"]
     nontrivial = info["n_pred"] > 0 and info["n_ref"] > 0 and len(cands) >= 1
     classes = [f"input={cfg['input']}", f"ndim={ref.ndim}"]
+    if "rle" in case:
+        classes.append("long_1d_runs" + (">65535" if ref.size > 65535 else ""))
     if cfg.get("matcher"):
         classes.append(f"mmetric={cfg['matcher']['metric']}")
         thr = cfg["matcher"]["thr"]
